@@ -5,6 +5,9 @@ package c14
 
 import (
 	"reflect"
+	"unsafe"
+
+	"github.com/tencent/goom/internal/iface"
 
 	"github.com/tencent/goom/internal/bytecode"
 	"github.com/tencent/goom/internal/bytecode/memory"
@@ -53,3 +56,12 @@ func RawRead(addr uintptr, n int) []byte { return memory.RawRead(addr, n) }
 
 // PlaceholderAddr is the entry address of the assembly function stub.Placeholder.
 func PlaceholderAddr() uintptr { return reflect.ValueOf(stub.Placeholder).Pointer() }
+
+// MakeMethodCaller / MakeMethodCallerWithCtx are the two makers of interface-method stubs (the stub is acquired
+// from the stub space and written there).
+func MakeMethodCaller(to unsafe.Pointer) (uintptr, error) { return iface.MakeMethodCaller(to) }
+
+// MakeMethodCallerWithCtx .
+func MakeMethodCallerWithCtx(ctx unsafe.Pointer, to uintptr) (uintptr, error) {
+	return iface.MakeMethodCallerWithCtx(ctx, to)
+}
